@@ -54,7 +54,7 @@ def reference(cfg):
     return logical, 1          # detection failed: logical value, one warning in total
 
 
-def run(ctx, cfg, saved):
+def run(ctx, cfg, saved, keep_cache=False):
     osc, aff, cg, ov, phys, only = cfg
     fos = types.SimpleNamespace()
     fos.cpu_count = lambda: osc
@@ -110,7 +110,8 @@ def run(ctx, cfg, saved):
     ctx.warnings = types.SimpleNamespace(warn=lambda m, *a, **kw: warns.append(str(m)[:80]))
     ctx.traceback = types.SimpleNamespace(print_tb=lambda *a, **kw: None)
     ctx.sys = types.SimpleNamespace(platform="linux", version_info=sys.version_info)
-    ctx.physical_cores_cache = None
+    if not keep_cache:
+        ctx.physical_cores_cache = None
     old_ps = sys.modules.get("psutil", "absent")
     sys.modules["psutil"] = fps
     try:
@@ -161,14 +162,38 @@ def main(tier):
             rep.add_violation(dict(signature=f"C17:warnings:{len(warns)}vs{nwarn}",
                                    msg=f"{len(warns)} 'physical cores' warnings over two calls, "
                                        f"expected {nwarn}, for {cfg}", config=repr(cfg)))
+    # histories of two configurations in ONE process: the machine (OS count, physical cores)
+    # stays, the limits change between the calls - the caches must not carry a stale answer
+    nh = 0
+    for osc, phys in itertools.product(OS_COUNTS, PHYS):
+        prime = (osc, ("none", 0), ("none", 0, 0), None, phys, True)
+        for aff, cg, ov, only in itertools.product(AFFINITY, CGROUPS, OVERRIDE, ONLY):
+            cfg = (osc, aff, cg, ov, phys, only)
+            run(ctx, prime, saved)                       # unrestricted query fills the caches
+            r1, r2, r3, _w = run(ctx, cfg, saved, keep_cache=True)
+            n += 1
+            nh += 1
+            exp, _ = reference(cfg)
+            exp_logical, _ = reference(cfg[:5] + (False,))
+            if r1 != exp or r2 != exp or r3 != exp_logical:
+                rep.add_violation(dict(
+                    signature=f"C17:after-unrestricted-query:only={only}:cg={cg[0]}:aff={aff[0]}:ov={ov}"
+                              f":phys={phys[0]}",
+                    msg=f"after an unrestricted cpu_count(only_physical_cores=True) in the same "
+                        f"process, cpu_count(only_physical_cores={only}) = {r1} then {r2} (logical "
+                        f"{r3}), expected {exp} (logical {exp_logical}) for os={osc} affinity={aff} "
+                        f"cgroup={cg} override={ov} physical={phys}", config=repr(cfg)))
     rep.coverage = dict(
+        two_step_histories=nh,
         evaluations=n, distinct_nontrivial=n, samples=samples, exhaustive=True,
         distinct_result_pairs=len(distinct_results),
         rule="full product of OS counts x affinity sources x cgroup layouts/ratios x overrides x "
              "physical-probe outcomes x only_physical_cores; every configuration is distinct; "
              "each is evaluated three times (two identical calls + a logical call) on the real "
              "cpu_count with a substituted environment and compared with an independently "
-             "written reference of the documented formula",
+             "written reference of the documented formula; plus every configuration evaluated after "
+             "an unrestricted only_physical_cores query in the same process (same machine, limits "
+             "imposed afterwards)",
         domain_sizes=dict(os=len(OS_COUNTS), affinity=len(AFFINITY), cgroup=len(CGROUPS),
                           override=len(OVERRIDE), physical=len(PHYS), only=2))
     rep.assumptions = ["linux code path (sys.platform substituted); lscpu / cpuinfo / psutil / "
